@@ -12,10 +12,15 @@
     * `c13_cosmetic_name`, `c13_inherited_namespace` — name and namespace attributes matter only through the
        full name and the namespace put in effect (`Spec.fullNameOf`): namespace + name versus dotted name,
        inherited versus spelled-out namespace.
-  Tested, not proved (harness props/c13.py): the fixed-point and same-encoding clauses, which run
-  through `json.loads` and the binary codec.
+    * `c13_fixed_point`, `c13_idempotent` — the fixed-point clause at the level of JSON values: `Canon.toRaw s` is the
+       value the canonical text denotes (compared with `json.loads` of the implementation's text on every harness case);
+       the specification's transformation applied to it returns the same text, for every schema whose names read back
+       in scope (`inScope`; the complement is finding F18, shown by evaluation below).
+  Tested, not proved (harness props/c13.py): `json.loads` itself, and the same-encoding clause, which runs through the
+  binary codec.
 -/
 import Proofs.Canon
+import Proofs.CanonFixed
 
 
 open Parse
@@ -110,3 +115,34 @@ def c13sample : Val := .dict [(.str "type", .str "record"), (.str "name", .str "
     | _ => false)
 
 
+/-! ### fixed point -/
+open Canon CanonProofs
+
+/-- **C13 (fixed point).** The canonical text of a parsed schema denotes the JSON value `Canon.toRaw s`; the
+    specification's transformation applied to THAT value gives the same text again — provided every name reads back,
+    in the namespace context the canonical form gives it, as the same full name (`inScope`: a name without a dot only
+    where no namespace is in effect; finding F18 is the other case) -/
+theorem c13_fixed_point (s : Schema) (ns : String) (hs : inScope ns s = true) :
+    Spec.pcf (depth s) (toRaw s) ns = some (canon s) :=
+  fp_all (depth s) s ns hs (Nat.le_refl _)
+
+/-- ... hence the transformation is idempotent on whatever `parse_schema` accepts: transforming the canonical form of
+    `raw` gives the canonical form of `raw` -/
+theorem c13_idempotent (fuel : Nat) (raw : Val) (env env' : Env) (ign : Bool) (s : Schema)
+    (h : parseTop fuel raw env ign = .ok (s, env')) (hs : inScope "" s = true) :
+    Spec.pcf (depth s) (toRaw s) "" = Spec.pcf (fuel+1) raw "" := by
+  rw [c13_fixed_point s "" hs, c13_eq_spec fuel raw env env' ign s h]
+
+/-! F18 as an evaluation (`#guard`: run by Lean's evaluator when the file is checked — a test, not a theorem): a type reset
+    to the null namespace inside a namespaced record — its name has no dot, reading the canonical form back puts it into
+    the enclosing namespace, and the fixed point fails; `inScope` is exactly what excludes it -/
+def c13f18 : Schema := .record "ns.R" [.mk "e" (.enum "X" ["A"] none []) none []] []
+#guard inScope "" c13f18 == false
+#guard Spec.pcf 4 (toRaw c13f18) "" == some "{\"name\":\"ns.R\",\"type\":\"record\",\"fields\":[{\"name\":\"e\",\"type\":{\"name\":\"ns.X\",\"type\":\"enum\",\"symbols\":[\"A\"]}}]}"
+#guard canon c13f18 == "{\"name\":\"ns.R\",\"type\":\"record\",\"fields\":[{\"name\":\"e\",\"type\":{\"name\":\"X\",\"type\":\"enum\",\"symbols\":[\"A\"]}}]}"
+
+/-! non-vacuity: a record in a namespace holding a nested record, an enum and a by-name reference -/
+def c13fp : Schema := .record "a.b.R" [.mk "x" (.record "a.b.In" [.mk "e" (.enum "c.E" ["A", "B"] none []) none []] []) none [],
+  .mk "again" (.union [.prim .null false none, .ref "c.E"]) none [], .mk "f" (.array (.fixed "a.F" 4 none [])) none []] []
+#guard inScope "" c13fp
+#guard Spec.pcf (depth c13fp) (toRaw c13fp) "" == some (canon c13fp)
